@@ -27,6 +27,12 @@ package main
 // app.Set(key, value) for every entry of set = m(hexkey=val,…); then GetComponentByName(holder): the holder is
 // created and populated a second time.  Observation: `<first creation: ok|err> <field>…` after the second creation.
 //
+// Histories with app.Set between two populations of DIFFERENT holders (see the section "kind HS" near the end of the file):
+//
+//	HS mode cfg ops eager late      a start creates the eager holder; app.Set(path, value)…; a late holder is populated
+//	                                afterwards (a second App sharing the Configure | the same App after a failed creation |
+//	                                a LazyInit component fetched after a successful start)
+//
 // ty      S string | I int | J int64 | U uint | D float64 | B bool | A any | P<ty> | L<ty> | M<ty> | T(hexname:ty:hexvalidate,…)
 // cfg     m(hexkey=val,…)   val = z | s<hex> | i<dec> | F<dec> (integer valued float) | f<decimal> | b0 | b1 | l(val,…) | m(hexkey=val,…)
 // evals   e(hexexpr=val|!,…)   what expr.Compile/Run gives DIRECTLY for the expression texts the real run meets
@@ -56,6 +62,9 @@ package main
 //        `${k:${fallback}}`: the tree node of such a placeholder carries the parts of its key / default, the direct
 //        substitution resolves them inside-out (inner text first, then the key it spells); expressions and value x
 //        constraint pairs over such placeholders are judged by the same oracles (label computed-key).
+//        Quote characters are ordinary bytes of a tag: cases with apostrophes / double quotes (odd and even counts) around an
+//        expression, in a default, in a literal, in a string literal of the expression, in front of a validate argument
+//        (label quote-text) are judged by the same oracles.
 //   two-step histories: the same oracles on the SECOND creation against the CURRENT configuration (cfg overlaid with
 //        set): C17 V = P = X and X = the current document value; C18 the expression is evaluated on the current
 //        values and validation judges the value actually bound.  A field that still shows what the FIRST configuration
@@ -1949,6 +1958,10 @@ func vlSplitTagArgs(text string) (val, args string) {
 func vlValueReplay(scn string, w *hx.Writer) {
 	scn = strings.TrimPrefix(scn, "# ")
 	f := strings.Fields(scn)
+	if len(f) > 0 && f[0] == "HS" {
+		vlHSReplay(f, w)
+		return
+	}
 	if len(f) < 6 {
 		return
 	}
@@ -3520,6 +3533,191 @@ func vlGenComputedKeyCase(r *hx.Rng) *vlVcase {
 	}
 }
 
+// ---- C18: literal text with quote characters (apostrophes, double quotes) in the value part of a tag
+//
+// A quote character is an ordinary byte of a tag: `#{${n:2}*3} o'clock,validate=startswith=6` has the value part
+// `#{${n:2}*3} o'clock` and the argument validate=startswith=6.  The cases below put single apostrophes / double quotes
+// (odd and even counts) around an expression, inside a placeholder's default, inside a string literal of the expression
+// (`"it's"`, an escaped `\"`) and into a plain literal, always in front of a `,validate=…` argument that the bound text
+// satisfies or violates; they are judged by the ordinary oracles (validate-iff, expr-result, bind-direct).
+
+var vlQuoteBits = []string{"o'clock", "it's", "don't panic", "5\"", "rock'n'roll", "'q'", "say \"hi\"", "a\"b", "''", "'\"", "d'Artagnan's", "\"\"\"", "x '", "\" y", "'em"}
+
+// vlQuoteText: a short text without commas, braces, `$`, `#`: plain words and one or two quote-bearing pieces.
+func vlQuoteText(r *hx.Rng) string {
+	var parts []string
+	if r.Bool() {
+		parts = append(parts, vlGenPlainWord(r))
+	}
+	parts = append(parts, vlQuoteBits[r.Intn(len(vlQuoteBits))])
+	if r.P(1, 3) {
+		parts = append(parts, vlQuoteBits[r.Intn(len(vlQuoteBits))])
+	}
+	if r.Bool() {
+		parts = append(parts, vlGenPlainWord(r))
+	}
+	return strings.Join(parts, " ")
+}
+
+func vlIsAlnum(b byte) bool {
+	return b >= '0' && b <= '9' || b >= 'a' && b <= 'z' || b >= 'A' && b <= 'Z'
+}
+
+// vlStringConstraint: a validator constraint for the text s that s satisfies (sat) or violates.
+func vlStringConstraint(r *hx.Rng, s string, sat bool) string {
+	n := utf8.RuneCountInString(s)
+	pre, suf := 0, len(s)
+	for pre < len(s) && pre < 3 && vlIsAlnum(s[pre]) {
+		pre++
+	}
+	for suf > 0 && len(s)-suf < 3 && vlIsAlnum(s[suf-1]) {
+		suf--
+	}
+	for try := 0; try < 8; try++ {
+		switch r.Intn(6) {
+		case 0:
+			if pre > 0 {
+				if sat {
+					return "startswith=" + s[:pre]
+				}
+				return "startswith=" + s[:pre] + "Zq"
+			}
+		case 1:
+			if suf < len(s) {
+				if sat {
+					return "endswith=" + s[suf:]
+				}
+				return "endswith=Zq" + s[suf:]
+			}
+		case 2:
+			if sat {
+				return "len=" + strconv.Itoa(n)
+			}
+			return "len=" + strconv.Itoa(n+1+r.Intn(3))
+		case 3:
+			if sat {
+				return "min=" + strconv.Itoa(n-r.Intn(2))
+			}
+			return "min=" + strconv.Itoa(n+1+r.Intn(3))
+		case 4:
+			if sat {
+				return "max=" + strconv.Itoa(n+r.Intn(2))
+			}
+			if n > 0 {
+				return "max=" + strconv.Itoa(n-1)
+			}
+		default:
+			if sat {
+				return "excludes=Zq"
+			}
+			return "contains=Zq"
+		}
+	}
+	if sat {
+		return "required"
+	}
+	return "len=" + strconv.Itoa(n+1)
+}
+
+func vlGenQuoteTextCase(r *hx.Rng) *vlVcase {
+	g := &vlExprGen{r: r, cfg: map[string]*vlCval{"kz": vlCStr("zz")}}
+	labels := []string{"quote-text"}
+	t := []*vlFty{vlTS, vlTS, vlTS, vlTA, vlTPS}[r.Intn(5)]
+	var tree []vlTnode
+	sp := func() string { return []string{" ", " ", "", "-"}[r.Intn(4)] }
+	switch k := r.Intn(10); {
+	case k < 4: // text with quote characters around an expression
+		var body []vlTnode
+		if r.P(2, 3) {
+			body = g.arith(1 + r.Intn(2))
+		} else {
+			body = g.str()
+		}
+		tree = []vlTnode{vlTExpr(body...)}
+		if r.P(1, 3) {
+			tree = vlCat(vlLit(vlQuoteText(r)+sp()), tree)
+		}
+		if len(tree) == 1 || r.P(2, 3) {
+			tree = vlCat(tree, vlLit(sp()+vlQuoteText(r)))
+		}
+		labels = append(labels, "expr", "embedded")
+	case k < 7: // a placeholder whose default carries quote characters (the key absent or configured), text around it
+		key := g.freshKey()
+		if r.P(1, 3) {
+			g.cfg[key] = vlCStr(vlGenPlainWord(r) + " " + vlGenPlainWord(r))
+			labels = append(labels, "configured")
+		}
+		tree = []vlTnode{vlTPHD(key, vlQuoteText(r))}
+		if r.P(1, 3) {
+			tree = vlCat(vlLit(vlGenPlainWord(r)+" "), tree)
+		}
+		if r.P(1, 3) {
+			tree = vlCat(tree, vlLit(" "+vlGenPlainWord(r)))
+		}
+		labels = append(labels, "default")
+	case k < 8: // no placeholder, no expression: a literal
+		tree = vlLit(vlGenPlainWord(r) + " " + vlQuoteText(r))
+		labels = append(labels, "literal")
+	default: // quote characters inside a string literal of the expression: "it's", an escaped \" — on an int or a string field
+		lit := []string{`"it's"`, `"a\"b"`, `'say "hi'`, `"o'clock" + 'x'`, `"\""`, `'d\'A'`}[r.Intn(6)]
+		if r.Bool() {
+			t = []*vlFty{vlTI, vlTJ, vlTPI}[r.Intn(3)]
+			tree = []vlTnode{vlTExpr(vlCat(vlLit("len("+lit+") + "), g.intOperand())...)}
+		} else {
+			tree = []vlTnode{vlTExpr(vlCat(vlLit(lit+" + "), g.strOperand())...)}
+			if r.Bool() {
+				tree = vlCat(tree, vlLit(" "+vlGenPlainWord(r)))
+			}
+		}
+		labels = append(labels, "expr", "quoted-literal")
+	}
+	c := &vlVcase{kind: "E", t: t, cfg: vlCMap(g.cfg), tags: [][]vlTnode{tree}}
+	// the constraint is chosen against the text the direct substitution gives (satisfied / violated, half and half)
+	native, _ := c.cfg.native().(map[string]any)
+	sat := r.Bool()
+	cons := "required"
+	if s, err := vlDirectSubst(tree, native, nil); err == nil {
+		if s == "'" || s == "\"" {
+			// the whole text came down to ONE quote character (a default `"""` loses its outer pair): binding that panics in
+			// strconv2.ParseAny — the known finding KF-C17-8 / KF-C16-1, not this generator's subject
+			return vlGenQuoteTextCase(r)
+		}
+		if t.k == 'I' || t.k == 'J' || (t.k == 'P' && t.elem.k == 'I') {
+			n, _ := strconv.Atoi(s)
+			if sat {
+				cons = []string{"min=" + strconv.Itoa(n), "max=" + strconv.Itoa(n), "eq=" + strconv.Itoa(n)}[r.Intn(3)]
+			} else {
+				cons = []string{"min=" + strconv.Itoa(n+1), "max=" + strconv.Itoa(n-1), "ne=" + strconv.Itoa(n)}[r.Intn(3)]
+			}
+		} else {
+			hx.Guard(func() {
+				if pv, perr := strconv2.ParseAny(s); perr == nil {
+					if ps, ok := pv.(string); ok {
+						s = ps
+					}
+				}
+			})
+			cons = vlStringConstraint(r, s, sat)
+		}
+	}
+	if r.P(1, 8) {
+		labels = append(labels, "no-validate") // control: no argument at all
+	} else {
+		c.args = ",validate=" + cons
+		if sat {
+			labels = append(labels, "satisfied")
+		} else {
+			labels = append(labels, "violated")
+		}
+		if r.P(1, 6) {
+			c.args += ",required=false"
+		}
+	}
+	c.labels = labels
+	c.dep = r.P(1, 10) // drawn last
+	return c
+}
+
 // ---- two-step histories: generators
 
 // vlGenSafeFor: a document value that matches the type and is in none of the lossy classes of the value path (for such
@@ -3834,6 +4032,15 @@ func vlValueGen(rng *hx.Rng, n int, tier string, w *hx.Writer) {
 			vlRunCase(vlGenC17(r), w)
 		}
 	}
+	// after the n cases above (their streams are untouched): one history in ten with app.Set between two populations
+	for i := 0; i < n/10; i++ {
+		r := rng.Fork()
+		if i%3 == 2 {
+			vlRunHS(vlGenHSLazy(r), w)
+		} else {
+			vlRunHS(vlGenHS(r), w)
+		}
+	}
 }
 
 func init() {
@@ -3861,6 +4068,10 @@ func init() {
 		// after the n cases above (their streams are untouched): one more case in twelve spells its keys in two steps
 		for i := 0; i < n/12; i++ {
 			vlRunCase(vlGenComputedKeyCase(rng.Fork()), w)
+		}
+		// … and one more in twelve carries quote characters in the value part of its tag, in front of a validate argument
+		for i := 0; i < n/12; i++ {
+			vlRunCase(vlGenQuoteTextCase(rng.Fork()), w)
 		}
 	}, Replay: vlValueReplay, Corpus: vlValueExprCorpus})
 }
@@ -3958,6 +4169,54 @@ func vlValueCorpus(w *hx.Writer) {
 		vlRunCase(vlWith(&c2, true, l.t.k == 'L'), w)
 	}
 	vlValueRetryCorpus(w)
+	vlValueHSCorpus(w)
+}
+
+// vlValueHSCorpus: a start, app.Set, a later population (kind HS): the later holder shows the CURRENT configuration.
+func vlValueHSCorpus(w *hx.Writer) {
+	db := &vlFty{k: 'T', fields: []vlFfield{{"host", vlTS, ""}, {"port", vlTI, ""}}}
+	dbHost := &vlFty{k: 'T', fields: []vlFfield{{"host", vlTS, ""}}}
+	pool := &vlFty{k: 'T', fields: []vlFfield{{"size", vlTI, ""}}}
+	dbPool := &vlFty{k: 'T', fields: []vlFfield{{"host", vlTS, ""}, {"pool", pool, ""}}}
+	doc := vlCMap(map[string]*vlCval{"db": vlCMap(map[string]*vlCval{"host": vlCStr("primary.internal"), "port": vlCInt(5432),
+		"pool": vlCMap(map[string]*vlCval{"size": vlCInt(3), "idle": vlCInt(1)})}),
+		"svc": vlCMap(map[string]*vlCval{"url": vlCStr("http://old.example"), "name": vlCStr("billing")})})
+	replica := vlCStr("replica.internal")
+	lateDb := []vlHField{{"prefix", dbHost, "db"}, {"value", vlTS, "${db.host}"}, {"prop", vlTS, "db.host"}, {"prop", vlTI, "db.port"}}
+	for _, mode := range []string{"s", "w"} {
+		mk := func(eager []vlHField, ops []vlSetOp, late []vlHField) {
+			vlRunHS(&vlHSCase{mode: mode, cfg: doc, eager: eager, ops: ops, late: late, labels: []string{"corpus"}}, w)
+		}
+		// the start binds the section `db`, a key below it is set, a later holder binds the section and the key
+		mk([]vlHField{{"prefix", db, "db"}}, []vlSetOp{{"db.host", replica}}, lateDb)
+		mk([]vlHField{{"prefix", db, "db"}}, []vlSetOp{{"DB.Host", replica}}, lateDb)
+		mk([]vlHField{{"prefix", vlTMA, "DB"}, {"prop", vlTI, "db.port"}}, []vlSetOp{{"db.host", replica}}, lateDb)
+		mk([]vlHField{{"prefix", db, "db"}}, []vlSetOp{{"db.pool.size", vlCInt(9)}},
+			[]vlHField{{"prefix", &vlFty{k: 'T', fields: []vlFfield{{"pool", pool, ""}}}, "db"}, {"prefix", pool, "db.pool"}, {"value", vlTI, "${db.pool.size}"}})
+		mk([]vlHField{{"prefix", db, "db"}}, []vlSetOp{{"db.pool", vlCMap(map[string]*vlCval{"Size": vlCInt(11), "max": vlCInt(5)})}},
+			[]vlHField{{"prefix", &vlFty{k: 'T', fields: []vlFfield{{"pool", pool, ""}}}, "db"}, {"prefix", vlTMA, "db.pool"}, {"prop", vlTI, "db.pool.max"}})
+		mk([]vlHField{{"prefix", db, "db"}, {"value", vlTS, "${db.host}"}},
+			[]vlSetOp{{"db", vlCMap(map[string]*vlCval{"host": replica, "pool": vlCMap(map[string]*vlCval{"size": vlCInt(7)})})}, {"db.pool.size", vlCInt(8)}},
+			[]vlHField{{"prefix", dbPool, "db"}, {"value", vlTS, "jdbc://${db.host}/${db.pool.size}"}})
+		// the start resolves a key (or finds it absent), its section is replaced (or appears), the key is resolved again
+		svc := vlCMap(map[string]*vlCval{"url": vlCStr("http://new.example"), "name": vlCStr("billing")})
+		early := []vlHField{{"value", vlTS, "${svc.url}"}, {"value", vlTS, "${svc.name}"}, {"value", vlTI, "${cache.ttl:30}"}}
+		lateSvc := append(append([]vlHField{}, early...), vlHField{"value", vlTS, "${svc.url}/${svc.name}?ttl=${cache.ttl:30}"}, vlHField{"prop", vlTI, "cache.ttl:30"})
+		mk(early, []vlSetOp{{"svc", svc}, {"cache", vlCMap(map[string]*vlCval{"ttl": vlCInt(60)})}}, lateSvc)
+		mk(early, []vlSetOp{{"SVC.URL", vlCStr("http://new.example")}, {"cache.ttl", vlCInt(60)}}, lateSvc)
+		mk(early, nil, lateSvc) // nothing is set: the later holder shows the document
+	}
+	for n := range vlLazyTable {
+		mk := func(eager []vlHField, ops ...vlSetOp) {
+			vlRunHS(&vlHSCase{mode: "z" + strconv.Itoa(n), cfg: vlCMap(map[string]*vlCval{"sa": vlCMap(map[string]*vlCval{"ka": vlCStr("primary.internal"), "kb": vlCInt(5432), "kc": vlCBool(false),
+				"sb": vlCMap(map[string]*vlCval{"kd": vlCStr("blue"), "ke": vlCInt(3)})})}), eager: eager, ops: ops, late: vlLazyTable[n].fields, labels: []string{"corpus", "lazy"}}, w)
+		}
+		mk([]vlHField{{"prefix", vlTSecA, "sa"}}, vlSetOp{"sa.ka", replica})
+		mk([]vlHField{{"prefix", vlTMA, "sa"}, {"value", vlTI, "${sa.kx:30}"}}, vlSetOp{"sa.sb.ke", vlCInt(9)}, vlSetOp{"sa.kx", vlCInt(60)}, vlSetOp{"SA.KB", vlCInt(6543)})
+		mk([]vlHField{{"value", vlTS, "${sa.ka}"}, {"prop", vlTI, "sa.sb.ke"}}, vlSetOp{"sa", vlCMap(map[string]*vlCval{"ka": replica, "kb": vlCInt(1), "kc": vlCBool(true),
+			"sb": vlCMap(map[string]*vlCval{"kd": vlCStr("green"), "ke": vlCInt(4)})})})
+		mk([]vlHField{{"prefix", vlTSecB, "sa.sb"}}, vlSetOp{"sa.sb", vlCMap(map[string]*vlCval{"Kd": vlCStr("green"), "KE": vlCInt(4)})}, vlSetOp{"sa.sb.kd", vlCStr("red")})
+	}
 }
 
 // vlValueRetryCorpus: the same holder populated twice (the first creation fails, the configuration is changed with
@@ -4115,6 +4374,22 @@ func vlValueExprCorpus(w *hx.Writer) {
 		vlRunCase(&vlVcase{kind: "Q", t: vlTPS, cfg: vlCMap(zc), args: ",validate=" + cons, tags: [][]vlTnode{{vlTLit("name")}}, labels: []string{"corpus"}}, w)
 		vlRunCase(&vlVcase{kind: "Q", t: vlTPI, cfg: vlCMap(zc), args: ",validate=" + cons, tags: [][]vlTnode{{vlTLit("retries")}}, labels: []string{"corpus"}}, w)
 	}
+	// quote characters are ordinary bytes of a tag: an apostrophe (an odd number of quotes) in the text around an expression,
+	// in a default, in a literal, in a string of the expression does not hide the validate argument behind it
+	qc := map[string]*vlCval{"n": three, "greeting": vlCStr("hello there")}
+	clock := []vlTnode{vlTExpr(vlTPHD("n", "2"), vlTLit("*3")), vlTLit(" o'clock")}
+	vlRunCase(vlExprCase(vlTS, qc, ",validate=startswith=6", clock...), w) // 9 o'clock: violated
+	vlRunCase(vlExprCase(vlTS, qc, ",validate=startswith=9", clock...), w)
+	vlRunCase(vlExprCase(vlTS, map[string]*vlCval{"kz": vlCStr("zz")}, ",validate=startswith=6", clock...), w) // n absent: 6 o'clock
+	vlRunCase(vlExprCase(vlTS, qc, ",validate=max=8", vlTPHD("motd", "don't panic")), w)                          // 11 characters: violated
+	vlRunCase(vlExprCase(vlTS, qc, ",validate=max=11", vlTPHD("motd", "don't panic")), w)
+	vlRunCase(vlExprCase(vlTS, qc, ",validate=max=8", vlTPHD("greeting", "don't panic")), w) // configured: 11 characters as well
+	vlRunCase(vlExprCase(vlTS, qc, ",validate=len=3", vlTLit(`5" pipe`)), w)
+	vlRunCase(vlExprCase(vlTS, qc, ",validate=len=7", vlTLit(`5" pipe`)), w)
+	vlRunCase(vlExprCase(vlTS, qc, ",validate=endswith=x", vlTLit(`say "hi" `), vlTPH("greeting")), w) // balanced quotes
+	vlRunCase(vlExprCase(vlTI, qc, ",validate=min=7", vlTExpr(vlTLit(`len("a\"b") + `), vlTPH("n"))), w) // an escaped quote inside the expression: 6
+	vlRunCase(vlExprCase(vlTI, qc, ",validate=min=6", vlTExpr(vlTLit(`len("a\"b") + `), vlTPH("n"))), w)
+	vlRunCase(vlExprCase(vlTS, qc, ",validate=contains=Zq,required=false", vlTExpr(vlTLit(`"it's " + "`), vlTPH("greeting"), vlTLit(`"`)), vlTLit(" rock'n'roll '")), w)
 	// the same holder populated twice: the expression is evaluated on the CURRENT values, validation judges what is bound
 	hist := func(t *vlFty, cfg, set map[string]*vlCval, gate, args string, tree ...vlTnode) *vlVcase {
 		c := vlExprCase(t, cfg, args, tree...)
@@ -4139,4 +4414,973 @@ func vlValueExprCorpus(w *hx.Writer) {
 	vlRunCase(hist(vlTS, map[string]*vlCval{"kz": vlCStr("zz")}, map[string]*vlCval{"kz": vlCStr("yy")}, "w", "", vlTExpr(vlTLit("1+2"))), w) // no placeholder at all
 	rq := &vlVcase{kind: "RQ", t: st, cfg: vlCMap(m("ab", 80)), set: vlCMap(m("a", 80)), gate: "w", args: ",validate", tags: [][]vlTnode{{vlTLit("k")}}, labels: []string{"corpus", "retry", "gate-w"}}
 	vlRunCase(rq, w)
+}
+
+// ---------------------------------------------------------------- histories with app.Set between two populations (kind HS)
+//
+//	HS <mode> <cfg> <ops> <eager> <late>
+//
+//	mode   s    two Apps that share one Configure: the first App starts (SUCCESSFULLY) with the eager holder, the
+//	            configuration is changed with app.Set, then a second App — app.SetConfigure(first.Configure), no loaders —
+//	            starts with the late holder
+//	       w    one App: the start creates the eager holder and then fails while the late holder is created (the late
+//	            holder's properties are populated, then its required, lazily created dependency cannot be initialised: its
+//	            upstream is down); app.Set; the upstream comes up; GetComponentByName(late) creates the late holder again
+//	       z<n> one App: the start succeeds (the eager holder is created; the late holder is the LazyInit component number n
+//	            of vlLazyTable and is left alone); app.Set; GetComponentByName(late) creates it
+//	cfg    m(hexkey=val,…)       the YAML document: nested maps, lower-case keys without dots
+//	ops    o(hexpath=val,…)      app.Set(path, val) in this order; a path is dotted and may be written in any letter case
+//	eager, late   h(<name>:<ty>:<hextag>,…)   the tagged fields of a holder: name = value | prop | prefix, every field with
+//	            its own type; the eager holder's fields are called E0…, the late holder's L0…
+//
+// Observation: `<start: ok|err> <eager field>… <second: ok|err> <late field>…` (the eager fields after the start; nothing
+// behind a failed start except in mode w, where the start is meant to fail; the late fields only after a second
+// population that succeeded).
+//
+// Oracles (C17, on the real run only).  The harness keeps its own account of the configuration: the document, and the
+// values handed to Set composed in order (a later Set at or above a path replaces what was set there, a Set below it
+// changes that part).  What the library answers for a path that was never handed to Set but lies beside one that was
+// (`db.port` read through `prefix:"db"` after Set("db.host", …)) depends on how the binder layers its sources — the
+// oracle claims nothing there.  It claims:
+//
+//	a path no Set is at, above or below          → the document's value
+//	a path with a Set at or above it that gave it a value → that value (with everything set below it later)
+//
+// and judges every late field whose path is of one of these two kinds — a struct bound by prefix member by member, a
+// placeholder text placeholder by placeholder: the field must hold the CURRENT value converted to its type.  A field that
+// shows what the document said before Set: setget-stale; any other difference: setget-current; an eager field that does
+// not hold the document's value: setget-first.
+
+type vlSetOp struct {
+	path string
+	val  *vlCval
+}
+
+type vlHField struct {
+	name string // value | prop | prefix
+	t    *vlFty
+	tag  string // the whole tag text
+}
+
+type vlHSCase struct {
+	mode   string
+	cfg    *vlCval
+	ops    []vlSetOp
+	eager  []vlHField
+	late   []vlHField
+	labels []string
+}
+
+func vlOpsTok(ops []vlSetOp) string {
+	var p []string
+	for _, o := range ops {
+		p = append(p, hx.Hex(o.path)+"="+o.val.tok())
+	}
+	return "o(" + strings.Join(p, ",") + ")"
+}
+
+func vlParseOps(s string) ([]vlSetOp, bool) {
+	if !strings.HasPrefix(s, "o(") {
+		return nil, false
+	}
+	rest := s[2:]
+	var ops []vlSetOp
+	for {
+		if rest == ")" {
+			return ops, true
+		}
+		i := strings.IndexByte(rest, '=')
+		if i < 0 {
+			return nil, false
+		}
+		p, err := hx.UnHex(rest[:i])
+		if err != nil {
+			return nil, false
+		}
+		v, r2, ok := vlParseCval(rest[i+1:])
+		if !ok {
+			return nil, false
+		}
+		ops = append(ops, vlSetOp{p, v})
+		rest = strings.TrimPrefix(r2, ",")
+	}
+}
+
+func vlHolderTok(fs []vlHField) string {
+	var p []string
+	for _, f := range fs {
+		p = append(p, f.name+":"+f.t.code()+":"+hx.Hex(f.tag))
+	}
+	return "h(" + strings.Join(p, ",") + ")"
+}
+
+func vlParseHolder(s string) ([]vlHField, bool) {
+	if !strings.HasPrefix(s, "h(") {
+		return nil, false
+	}
+	rest := s[2:]
+	var fs []vlHField
+	for {
+		if rest == ")" {
+			return fs, true
+		}
+		i := strings.IndexByte(rest, ':')
+		if i < 0 {
+			return nil, false
+		}
+		name := rest[:i]
+		if name != "value" && name != "prop" && name != "prefix" {
+			return nil, false
+		}
+		t, r2, ok := vlParseFty(rest[i+1:])
+		if !ok || !strings.HasPrefix(r2, ":") {
+			return nil, false
+		}
+		r2 = r2[1:]
+		j := strings.IndexAny(r2, ",)")
+		if j < 0 {
+			return nil, false
+		}
+		tag, err := hx.UnHex(r2[:j])
+		if err != nil {
+			return nil, false
+		}
+		fs = append(fs, vlHField{name, t, tag})
+		rest = strings.TrimPrefix(r2[j:], ",")
+	}
+}
+
+// ---- LazyInit holders (mode z): Go-declared types — a struct type made with reflect.StructOf cannot carry the LazyInit
+// method — over a fixed vocabulary: section `sa` with the leaves ka (string), kb (int), kc (bool) and the sub-section
+// `sb` with the leaves kd (string), ke (int).
+
+type vlSecB struct {
+	Kd string `yaml:"kd"`
+	Ke int    `yaml:"ke"`
+}
+
+type vlSecA struct {
+	Ka string `yaml:"ka"`
+	Kb int    `yaml:"kb"`
+	Sb vlSecB `yaml:"sb"`
+}
+
+type vlSecHost struct {
+	Ka string `yaml:"ka"`
+}
+
+type vlLazy1 struct {
+	definition.LazyInitComponent
+	L0 vlSecA `prefix:"sa"`
+	L1 string `value:"${sa.ka}"`
+	L2 string `prop:"sa.ka"`
+	L3 int    `prop:"sa.kb"`
+}
+
+type vlLazy2 struct {
+	definition.LazyInitComponent
+	L0 map[string]any `prefix:"sa.sb"`
+	L1 string         `value:"${sa.sb.kd}"`
+	L2 int            `prop:"SA.SB.KE"`
+	L3 vlSecB         `prefix:"sa.sb"`
+	L4 string         `value:"${sa.ka}:${sa.sb.ke}"`
+}
+
+type vlLazy3 struct {
+	definition.LazyInitComponent
+	L0 vlSecHost `prefix:"sa"`
+	L1 string    `prefix:"sa.ka"`
+	L2 string    `value:"${sa.ka:none}"`
+	L3 int       `prop:"sa.kx:30"`
+	L4 bool      `value:"${sa.kc}"`
+}
+
+type vlLazy4 struct {
+	definition.LazyInitComponent
+	L0 map[string]any `prefix:"sa"`
+	L1 int            `value:"${SA.KB}"`
+	L2 int            `prop:"sa.sb.ke"`
+	L3 *vlSecB        `prefix:"sa.sb"`
+}
+
+var (
+	vlTSecB    = &vlFty{k: 'T', fields: []vlFfield{{"kd", vlTS, ""}, {"ke", vlTI, ""}}}
+	vlTSecA    = &vlFty{k: 'T', fields: []vlFfield{{"ka", vlTS, ""}, {"kb", vlTI, ""}, {"sb", vlTSecB, ""}}}
+	vlTSecHost = &vlFty{k: 'T', fields: []vlFfield{{"ka", vlTS, ""}}}
+)
+
+type vlLazyKind struct {
+	mk     func() any
+	fields []vlHField
+}
+
+var vlLazyTable = []vlLazyKind{
+	{func() any { return &vlLazy1{} }, []vlHField{{"prefix", vlTSecA, "sa"}, {"value", vlTS, "${sa.ka}"}, {"prop", vlTS, "sa.ka"}, {"prop", vlTI, "sa.kb"}}},
+	{func() any { return &vlLazy2{} }, []vlHField{{"prefix", vlTMA, "sa.sb"}, {"value", vlTS, "${sa.sb.kd}"}, {"prop", vlTI, "SA.SB.KE"}, {"prefix", vlTSecB, "sa.sb"}, {"value", vlTS, "${sa.ka}:${sa.sb.ke}"}}},
+	{func() any { return &vlLazy3{} }, []vlHField{{"prefix", vlTSecHost, "sa"}, {"prefix", vlTS, "sa.ka"}, {"value", vlTS, "${sa.ka:none}"}, {"prop", vlTI, "sa.kx:30"}, {"value", vlTB, "${sa.kc}"}}},
+	{func() any { return &vlLazy4{} }, []vlHField{{"prefix", vlTMA, "sa"}, {"value", vlTI, "${SA.KB}"}, {"prop", vlTI, "sa.sb.ke"}, {"prefix", &vlFty{k: 'P', elem: vlTSecB}, "sa.sb"}}},
+}
+
+func vlLazyIndex(mode string) int {
+	if len(mode) < 2 || mode[0] != 'z' {
+		return -1
+	}
+	n, err := strconv.Atoi(mode[1:])
+	if err != nil || n < 0 || n >= len(vlLazyTable) {
+		return -1
+	}
+	return n
+}
+
+func vlHSStructFields(prefix string, fs []vlHField) []reflect.StructField {
+	var out []reflect.StructField
+	for i, f := range fs {
+		out = append(out, reflect.StructField{Name: fmt.Sprintf("%s%d", prefix, i), Type: f.t.rtype(), Tag: reflect.StructTag(vlStructTag(f.name, f.tag))})
+	}
+	return out
+}
+
+// vlRunHSReal: the history on the real container.
+func vlRunHSReal(c *vlHSCase) (start string, eager []reflect.Value, second string, late []reflect.Value) {
+	doc := vlYamlDoc(c.cfg)
+	eh := reflect.New(reflect.StructOf(vlHSStructFields("E", c.eager)))
+	var lh reflect.Value
+	lateOff := 0
+	upstream := &vlFailOnce{down: true}
+	switch {
+	case c.mode == "w":
+		fs := append(vlHSStructFields("L", c.late), reflect.StructField{Name: "Dep", Type: reflect.TypeOf((*vlFailOnce)(nil)), Tag: `wire:""`})
+		lh = reflect.New(reflect.StructOf(fs))
+	case c.mode == "s":
+		lh = reflect.New(reflect.StructOf(vlHSStructFields("L", c.late)))
+	default:
+		lh = reflect.ValueOf(vlLazyTable[vlLazyIndex(c.mode)].mk())
+		lateOff = 1 // behind the embedded LazyInitComponent
+	}
+	set := func(a *app.App) {
+		for _, o := range c.ops {
+			a.Set(o.path, o.val.native())
+		}
+	}
+	var err1, err2 error
+	ran2 := false
+	pan := hx.Guard(func() {
+		a := app.NewApp()
+		defer a.Close()
+		switch {
+		case c.mode == "s":
+			err1 = a.Run(app.LogLevel(syslog.LvPanic), app.SetConfigLoader(loader.NewRawLoader([]byte(doc))), app.SetComponents(eh.Interface()))
+			if err1 != nil {
+				return
+			}
+			set(a)
+			b := app.NewApp()
+			defer b.Close()
+			ran2 = true
+			err2 = b.Run(app.LogLevel(syslog.LvPanic), app.SetConfigure(a.Configure), app.SetConfigLoader(), app.SetComponents(lh.Interface()))
+		case c.mode == "w":
+			err1 = a.Run(app.LogLevel(syslog.LvPanic), app.SetConfigLoader(loader.NewRawLoader([]byte(doc))), app.SetComponents(eh.Interface(), lh.Interface(), upstream))
+			set(a)
+			upstream.down = false
+			ran2 = true
+			_, err2 = a.GetComponentByName(framework_helper.GetComponentName(lh.Interface()))
+		default:
+			err1 = a.Run(app.LogLevel(syslog.LvPanic), app.SetConfigLoader(loader.NewRawLoader([]byte(doc))), app.SetComponents(eh.Interface(), lh.Interface()))
+			if err1 != nil {
+				return
+			}
+			set(a)
+			ran2 = true
+			_, err2 = a.GetComponentByName(framework_helper.GetComponentName(lh.Interface()))
+		}
+	})
+	if pan != nil {
+		return "panic", nil, "", nil
+	}
+	start = "ok"
+	if err1 != nil {
+		start = "err"
+	}
+	if err1 == nil || c.mode == "w" {
+		for i := range c.eager {
+			eager = append(eager, eh.Elem().Field(i))
+		}
+	}
+	if ran2 {
+		second = "ok"
+		if err2 != nil {
+			second = "err"
+		} else {
+			for i := range c.late {
+				late = append(late, lh.Elem().Field(lateOff+i))
+			}
+		}
+	}
+	return
+}
+
+// ---- the harness's own account of the configuration
+
+func vlMapGet(c *vlCval, k string) *vlCval {
+	if c == nil || c.k != 'm' {
+		return nil
+	}
+	for i, x := range c.mk {
+		if x == k {
+			return c.mv[i]
+		}
+	}
+	return nil
+}
+
+func vlMapPut(c *vlCval, k string, v *vlCval) {
+	for i, x := range c.mk {
+		if x == k {
+			c.mv[i] = v
+			return
+		}
+	}
+	c.mk = append(c.mk, k)
+	c.mv = append(c.mv, v)
+}
+
+// vlLowerKeys: a copy with the keys of maps (and of maps inside maps) in lower case — keys are not case sensitive.
+func vlLowerKeys(c *vlCval) *vlCval {
+	if c.k != 'm' {
+		return c
+	}
+	out := &vlCval{k: 'm'}
+	for i, k := range c.mk {
+		vlMapPut(out, strings.ToLower(k), vlLowerKeys(c.mv[i]))
+	}
+	return out
+}
+
+func vlPathOf(s string) []string { return strings.Split(strings.ToLower(s), ".") }
+
+func vlGetPath(root *vlCval, path []string) *vlCval {
+	cur := root
+	for _, seg := range path {
+		cur = vlMapGet(cur, seg)
+		if cur == nil {
+			return nil
+		}
+	}
+	return cur
+}
+
+func vlIsPrefix(p, q []string) bool {
+	if len(p) > len(q) {
+		return false
+	}
+	for i := range p {
+		if p[i] != q[i] {
+			return false
+		}
+	}
+	return true
+}
+
+// vlCurView: the document, and what was handed to Set, composed in order.
+type vlCurView struct {
+	doc  *vlCval
+	set  *vlCval    // the values handed to Set, composed
+	ops  [][]string // their paths
+	note string
+}
+
+func vlNewCurView(doc *vlCval, ops []vlSetOp) *vlCurView {
+	cv := &vlCurView{doc: vlLowerKeys(doc), set: &vlCval{k: 'm'}}
+	for _, o := range ops {
+		path := vlPathOf(o.path)
+		cv.ops = append(cv.ops, path)
+		cur := cv.set
+		for _, seg := range path[:len(path)-1] {
+			next := vlMapGet(cur, seg)
+			if next == nil || next.k != 'm' {
+				next = &vlCval{k: 'm'}
+				vlMapPut(cur, seg, next)
+			}
+			cur = next
+		}
+		vlMapPut(cur, path[len(path)-1], vlLowerKeys(o.val))
+	}
+	return cv
+}
+
+// at: the current value of a path and whether the harness's account is sure of it.  root: the path is looked up itself
+// (not reached through a binding of one of its ancestors).
+func (cv *vlCurView) at(path []string, root bool) (val *vlCval, sure bool) {
+	comparable, above := false, false
+	for _, op := range cv.ops {
+		if vlIsPrefix(op, path) {
+			comparable, above = true, true
+		} else if vlIsPrefix(path, op) {
+			comparable = true
+		}
+	}
+	if !comparable {
+		if root {
+			return vlGetPath(cv.doc, path), true
+		}
+		return nil, false
+	}
+	if above {
+		if v := vlGetPath(cv.set, path); v != nil && v.k != 'z' {
+			return v, true
+		}
+	}
+	return nil, false
+}
+
+func vlScalarSafe(v *vlCval) bool {
+	switch v.k {
+	case 's', 'i', 'b', 'f', 'F':
+		return len(vlRiskClasses(v)) == 0
+	}
+	return false
+}
+
+// valueText: the text of a value tag's value part under the current view; ok=false: some placeholder is not claimed.
+func (cv *vlCurView) valueText(tree []vlTnode) (string, bool) {
+	var sb strings.Builder
+	for _, n := range tree {
+		switch n.kind {
+		case 'l':
+			if strings.ContainsAny(n.lit, "${}#") {
+				return "", false
+			}
+			sb.WriteString(n.lit)
+		case 'p':
+			if n.keyT != nil || n.dfltT != nil || n.key == "" {
+				return "", false
+			}
+			v, sure := cv.at(vlPathOf(n.key), true)
+			if !sure {
+				return "", false
+			}
+			if v == nil || v.k == 'z' {
+				if n.dflt == nil || *n.dflt == "" {
+					continue
+				}
+				var d any
+				var err error
+				if hx.Guard(func() { d, err = strconv2.ParseAny(*n.dflt) }) != nil || err != nil {
+					return "", false
+				}
+				s, err := strconv2.FormatAny(d)
+				if err != nil {
+					return "", false
+				}
+				sb.WriteString(s)
+				continue
+			}
+			if !vlScalarSafe(v) || (v.k == 's' && v.s == "") {
+				return "", false
+			}
+			s, err := strconv2.FormatAny(v.native())
+			if err != nil {
+				return "", false
+			}
+			sb.WriteString(s)
+		default:
+			return "", false
+		}
+	}
+	return sb.String(), true
+}
+
+// vlHSJudge: one field against a view; diff = "" when everything claimed holds; claimed = number of values judged;
+// whole = the field as a whole had a sure, present value.
+func (cv *vlCurView) judge(f vlHField, got reflect.Value) (diff string, claimed int, whole bool) {
+	val, _ := vlSplitTagArgs(f.tag)
+	switch f.name {
+	case "prefix":
+		if strings.ContainsAny(val, "${}#") || val == "" {
+			return "", 0, false
+		}
+		return cv.judgePrefix(vlPathOf(val), f.t, got, true)
+	case "prop", "value":
+		tree := vlParseTagTree(val, true)
+		if f.name == "prop" {
+			tree = vlParseTagTree("${"+val+"}", true)
+		}
+		s, ok := cv.valueText(tree)
+		if !ok || s == "" {
+			return "", 0, false
+		}
+		var pv any
+		var perr error
+		if hx.Guard(func() { pv, perr = strconv2.ParseAny(s) }) != nil || perr != nil {
+			return "", 0, false
+		}
+		want, err := vlDirectDecode(pv, f.t.rtype())
+		if err != nil {
+			return "", 0, false
+		}
+		if vlRender(want) != vlRender(got) {
+			return fmt.Sprintf("%s:%q holds %s, configured %s", f.name, f.tag, vlRender(got), vlRender(want)), 1, true
+		}
+		return "", 1, true
+	}
+	return "", 0, false
+}
+
+func (cv *vlCurView) judgePrefix(path []string, t *vlFty, got reflect.Value, root bool) (diff string, claimed int, whole bool) {
+	v, sure := cv.at(path, root)
+	if sure {
+		if v == nil || v.k == 'z' {
+			return "", 0, false
+		}
+		want, err := vlDirectDecode(v.native(), t.rtype())
+		if err != nil {
+			return "", 0, false
+		}
+		if vlRender(want) != vlRender(got) {
+			return fmt.Sprintf("prefix %s holds %s, configured %s", strings.Join(path, "."), vlRender(got), vlRender(want)), 1, true
+		}
+		return "", 1, true
+	}
+	// not sure of the subtree as a whole: a struct is judged member by member
+	st := t
+	if st.k == 'P' && st.elem.k == 'T' {
+		if got.IsNil() {
+			return "", 0, false
+		}
+		st, got = st.elem, got.Elem()
+	}
+	if st.k != 'T' {
+		return "", 0, false
+	}
+	for i, f := range st.fields {
+		d, n, _ := cv.judgePrefix(append(append([]string{}, path...), strings.ToLower(f.name)), f.t, got.Field(i), false)
+		claimed += n
+		if d != "" && diff == "" {
+			diff = d
+		}
+	}
+	return diff, claimed, false
+}
+
+func vlRunHS(c *vlHSCase, w *hx.Writer) {
+	start, eager, second, late := vlRunHSReal(c)
+	obs := []string{start}
+	for _, v := range eager {
+		obs = append(obs, vlRender(v))
+	}
+	if second != "" {
+		obs = append(obs, second)
+	}
+	for _, v := range late {
+		obs = append(obs, vlRender(v))
+	}
+	scn := strings.Join([]string{"HS", c.mode, c.cfg.tok(), vlOpsTok(c.ops), vlHolderTok(c.eager), vlHolderTok(c.late)}, " ")
+	out := hx.Case{Scn: scn, Obs: strings.Join(obs, " "), Tags: append([]string{"setget", "mode-" + c.mode[:1]}, c.labels...)}
+	first := vlNewCurView(c.cfg, nil)
+	cur := vlNewCurView(c.cfg, c.ops)
+	switch {
+	case start == "panic":
+		out.Oracle = "FAIL valuepath-panic the container panicked"
+	default:
+		for i, v := range eager {
+			if d, _, _ := first.judge(c.eager[i], v); d != "" && out.Oracle == "" && (start == "ok" || c.mode == "w") {
+				out.Oracle = "FAIL setget-first eager field " + d
+			}
+		}
+		claimed, allWhole := 0, len(c.late) > 0
+		for i, f := range c.late {
+			var got reflect.Value
+			if late != nil {
+				got = late[i]
+			} else {
+				got = reflect.Zero(f.t.rtype())
+			}
+			d, n, whole := cur.judge(f, got)
+			claimed += n
+			allWhole = allWhole && whole
+			if late == nil || d == "" || out.Oracle != "" {
+				continue
+			}
+			sig := "setget-current"
+			if d0, n0, _ := first.judge(f, got); n0 > 0 && d0 == "" {
+				sig = "setget-stale" // the field holds what the document said before Set
+			}
+			out.Oracle = fmt.Sprintf("FAIL %s after %s: late field %s", sig, vlOpsTok(c.ops), d)
+		}
+		if second == "err" && allWhole && out.Oracle == "" {
+			out.Oracle = fmt.Sprintf("FAIL setget-current after %s: the second population failed although every key of the late holder is configured", vlOpsTok(c.ops))
+		}
+		if claimed > 0 {
+			out.Tags = append(out.Tags, "judged")
+		}
+	}
+	w.Put(out)
+}
+
+func vlHSReplay(f []string, w *hx.Writer) {
+	if len(f) != 6 {
+		return
+	}
+	mode := f[1]
+	if mode != "s" && mode != "w" && vlLazyIndex(mode) < 0 {
+		return
+	}
+	cfg, rest, ok := vlParseCval(f[2])
+	if !ok || rest != "" || cfg.k != 'm' {
+		return
+	}
+	ops, ok := vlParseOps(f[3])
+	if !ok {
+		return
+	}
+	eager, ok1 := vlParseHolder(f[4])
+	late, ok2 := vlParseHolder(f[5])
+	if !ok1 || !ok2 {
+		return
+	}
+	if n := vlLazyIndex(mode); n >= 0 && vlHolderTok(late) != vlHolderTok(vlLazyTable[n].fields) {
+		return // the LazyInit holders are Go types: their fields are what the table says
+	}
+	vlRunHS(&vlHSCase{mode: mode, cfg: cfg, ops: ops, eager: eager, late: late, labels: []string{"replay"}}, w)
+}
+
+// ---- generators of histories
+
+type vlHLeaf struct {
+	path string // dotted, lower case
+	name string // last segment
+	t    *vlFty
+	v    *vlCval
+}
+
+type vlHSGen struct {
+	r      *hx.Rng
+	sec    string
+	sub    string // "" = no sub-section
+	leaves []vlHLeaf
+	subs   []vlHLeaf
+	used   map[string]bool
+}
+
+func (g *vlHSGen) freshName() string {
+	for {
+		k := vlGenKey(g.r)
+		if !g.used[k] {
+			g.used[k] = true
+			return k
+		}
+	}
+}
+
+func (g *vlHSGen) safe(t *vlFty) *vlCval {
+	if v, ok := vlGenSafeFor(g.r, t); ok && !(v.k == 's' && v.s == "") {
+		return v
+	}
+	switch t.k {
+	case 'I':
+		return vlCInt(int64(g.r.Intn(9000)))
+	case 'B':
+		return vlCBool(g.r.Bool())
+	}
+	return vlCStr(vlGenPlainWord(g.r) + ".internal")
+}
+
+func (g *vlHSGen) leaf(prefix string) vlHLeaf {
+	name := g.freshName()
+	t := []*vlFty{vlTS, vlTS, vlTI, vlTB}[g.r.Intn(4)]
+	return vlHLeaf{path: prefix + "." + name, name: name, t: t, v: g.safe(t)}
+}
+
+// vary: another safe value of the leaf's type
+func (g *vlHSGen) vary(l vlHLeaf) *vlCval {
+	for try := 0; try < 8; try++ {
+		v := g.safe(l.t)
+		a, _ := vlExpectRender(v, l.t)
+		b, _ := vlExpectRender(l.v, l.t)
+		if a != b {
+			return v
+		}
+	}
+	return vlVaryValue(g.r, l.v, l.t)
+}
+
+func vlMapOfLeaves(ls []vlHLeaf, upper bool) map[string]*vlCval {
+	kv := map[string]*vlCval{}
+	for _, l := range ls {
+		k := l.name
+		if upper {
+			k = strings.ToUpper(k[:1]) + k[1:]
+		}
+		kv[k] = l.v
+	}
+	return kv
+}
+
+func (g *vlHSGen) doc() *vlCval {
+	sec := vlMapOfLeaves(g.leaves, false)
+	if g.sub != "" {
+		sec[g.sub] = vlCMap(vlMapOfLeaves(g.subs, false))
+	}
+	return vlCMap(map[string]*vlCval{"kz": vlCStr("zz"), g.sec: vlCMap(sec)})
+}
+
+// casing: the path as written in a tag or handed to Set — keys are not case sensitive
+func (g *vlHSGen) casing(path string) string {
+	switch g.r.Intn(6) {
+	case 0:
+		return strings.ToUpper(path)
+	case 1:
+		segs := strings.Split(path, ".")
+		for i, s := range segs {
+			if g.r.Bool() {
+				segs[i] = strings.ToUpper(s[:1]) + s[1:]
+			}
+		}
+		return strings.Join(segs, ".")
+	}
+	return path
+}
+
+func (g *vlHSGen) subStruct(all bool) *vlFty {
+	t := &vlFty{k: 'T'}
+	for _, l := range g.subs {
+		if all || g.r.P(2, 3) {
+			t.fields = append(t.fields, vlFfield{l.name, l.t, ""})
+		}
+	}
+	if len(t.fields) == 0 {
+		t.fields = append(t.fields, vlFfield{g.subs[0].name, g.subs[0].t, ""})
+	}
+	return t
+}
+
+// secStruct: a struct over members of the section; must = a leaf (of the section or of the sub-section) it has to read
+func (g *vlHSGen) secStruct(must string) *vlFty {
+	t := &vlFty{k: 'T'}
+	for _, l := range g.leaves {
+		if l.path == must || g.r.P(1, 2) {
+			t.fields = append(t.fields, vlFfield{l.name, l.t, ""})
+		}
+	}
+	if g.sub != "" {
+		mustSub := strings.HasPrefix(must, g.sec+"."+g.sub+".")
+		if mustSub || g.r.P(1, 2) {
+			st := g.subStruct(mustSub)
+			if g.r.P(1, 4) {
+				st = &vlFty{k: 'P', elem: st}
+			}
+			t.fields = append(t.fields, vlFfield{g.sub, st, ""})
+		}
+	}
+	if len(t.fields) == 0 {
+		t.fields = append(t.fields, vlFfield{g.leaves[0].name, g.leaves[0].t, ""})
+	}
+	return t
+}
+
+func (g *vlHSGen) byValue(l vlHLeaf) vlHField {
+	p := g.casing(l.path)
+	switch g.r.Intn(5) {
+	case 0:
+		return vlHField{"prop", l.t, p}
+	case 1:
+		return vlHField{"prefix", l.t, p}
+	case 2:
+		if l.t.k == 'S' {
+			return vlHField{"value", l.t, vlGenPlainWord(g.r) + "-${" + p + "}/" + vlGenPlainWord(g.r)}
+		}
+	}
+	return vlHField{"value", l.t, "${" + p + "}"}
+}
+
+// ancestorField: the section (or the sub-section) bound by prefix as a struct that reads `must`, or as a map
+func (g *vlHSGen) ancestorField(onSub bool, must string) vlHField {
+	path := g.sec
+	if onSub {
+		path += "." + g.sub
+	}
+	path = g.casing(path)
+	if g.r.P(1, 4) {
+		return vlHField{"prefix", vlTMA, path}
+	}
+	if onSub {
+		return vlHField{"prefix", g.subStruct(must != ""), path}
+	}
+	return vlHField{"prefix", g.secStruct(must), path}
+}
+
+func vlGenHS(r *hx.Rng) *vlHSCase {
+	g := &vlHSGen{r: r, used: map[string]bool{"kz": true}}
+	g.sec = "s" + string(vlSelAlpha[r.Intn(len(vlSelAlpha))]) + vlGenDigits(r, 1, false)
+	for i, n := 0, 2+r.Intn(3); i < n; i++ {
+		g.leaves = append(g.leaves, g.leaf(g.sec))
+	}
+	if r.P(2, 3) {
+		g.sub = "g" + string(vlSelAlpha[r.Intn(len(vlSelAlpha))])
+		for i, n := 0, 1+r.Intn(3); i < n; i++ {
+			g.subs = append(g.subs, g.leaf(g.sec+"."+g.sub))
+		}
+	}
+	c := &vlHSCase{mode: []string{"s", "s", "w"}[r.Intn(3)], cfg: g.doc()}
+	all := append(append([]vlHLeaf{}, g.leaves...), g.subs...)
+	target := all[r.Intn(len(all))] // the leaf the history turns on
+	inSub := strings.HasPrefix(target.path, g.sec+"."+g.sub+".") && g.sub != ""
+	changed := target
+	changed.v = g.vary(target)
+	shape := r.Intn(8)
+	labels := []string{fmt.Sprintf("shape%d", shape)}
+	setLeaf := vlSetOp{g.casing(target.path), changed.v}
+	// the map handed to Set when the parent of the target is replaced: the target's new value, the siblings as they were
+	parentMap := func(upper bool) (string, *vlCval) {
+		ls := g.leaves
+		parent := g.sec
+		if inSub {
+			ls, parent = g.subs, g.sec+"."+g.sub
+		}
+		var out []vlHLeaf
+		for _, l := range ls {
+			if l.path == target.path {
+				l = changed
+			} else if r.P(1, 4) {
+				continue // a sibling that the new map does not mention
+			}
+			out = append(out, l)
+		}
+		kv := vlMapOfLeaves(out, upper)
+		if !inSub && g.sub != "" && r.P(1, 2) {
+			kv[g.sub] = vlCMap(vlMapOfLeaves(g.subs, false))
+		}
+		return parent, vlCMap(kv)
+	}
+	switch shape {
+	case 0, 1, 2: // an ancestor is looked up first, a path below it is set, the ancestor is bound again
+		onSub := inSub && r.Bool()
+		c.eager = append(c.eager, g.ancestorField(onSub, ""))
+		if r.Bool() {
+			c.eager = append(c.eager, g.byValue(all[r.Intn(len(all))]))
+		}
+		c.ops = append(c.ops, setLeaf)
+		c.late = append(c.late, g.ancestorField(onSub, target.path), g.byValue(changed), vlHField{"prop", target.t, g.casing(target.path)})
+		labels = append(labels, "ancestor-then-leaf")
+	case 3: // … the path below is a map: the sub-section is replaced while the section was looked up
+		if g.sub == "" {
+			c.eager = append(c.eager, g.ancestorField(false, ""))
+			c.ops = append(c.ops, setLeaf)
+		} else {
+			c.eager = append(c.eager, g.ancestorField(false, ""))
+			if !inSub {
+				target = g.subs[r.Intn(len(g.subs))]
+				changed = target
+				changed.v = g.vary(target)
+				inSub = true
+			}
+			p, m := parentMap(r.P(1, 3))
+			c.ops = append(c.ops, vlSetOp{g.casing(p), m})
+		}
+		c.late = append(c.late, g.ancestorField(false, target.path), g.byValue(changed))
+		labels = append(labels, "ancestor-then-submap")
+	case 4, 5: // a leaf is looked up first, its parent (or the path in another letter case) is set, the leaf is read again
+		c.eager = append(c.eager, g.byValue(target))
+		if r.Bool() {
+			c.eager = append(c.eager, g.ancestorField(inSub && r.Bool(), ""))
+		}
+		if r.P(2, 3) {
+			p, m := parentMap(r.P(1, 3))
+			c.ops = append(c.ops, vlSetOp{g.casing(p), m})
+			labels = append(labels, "leaf-then-ancestor")
+		} else {
+			c.ops = append(c.ops, vlSetOp{strings.ToUpper(target.path), changed.v})
+			labels = append(labels, "leaf-then-other-case")
+		}
+		c.late = append(c.late, g.byValue(changed), vlHField{"prop", target.t, g.casing(target.path)}, g.ancestorField(inSub && r.Bool(), target.path))
+	case 6: // a key that is absent at first (its default is used), configured later by Set — on its own or with its section
+		name := g.freshName()
+		path := g.sec + "." + name
+		t := []*vlFty{vlTS, vlTI}[r.Intn(2)]
+		dflt, v := vlGenPlainWord(r), vlCStr(vlGenPlainWord(r)+"q")
+		if t.k == 'I' {
+			dflt, v = strconv.Itoa(r.Intn(50)), vlCInt(int64(60+r.Intn(900)))
+		}
+		if r.Bool() {
+			path = "x" + g.sec + "." + name // the whole section is absent at first
+		}
+		c.eager = append(c.eager, vlHField{"value", t, "${" + path + ":" + dflt + "}"})
+		if r.Bool() {
+			c.eager = append(c.eager, g.ancestorField(false, ""))
+		}
+		if i := strings.LastIndexByte(path, '.'); r.Bool() && strings.HasPrefix(path, "x") {
+			c.ops = append(c.ops, vlSetOp{g.casing(path[:i]), vlCMap(map[string]*vlCval{name: v})})
+		} else {
+			c.ops = append(c.ops, vlSetOp{g.casing(path), v})
+		}
+		c.late = append(c.late, vlHField{"value", t, "${" + path + ":" + dflt + "}"}, vlHField{"prop", t, g.casing(path) + ":" + dflt}, vlHField{"prefix", t, path + ",required=false"})
+		if !strings.HasPrefix(path, "x") {
+			st := &vlFty{k: 'T', fields: []vlFfield{{name, t, ""}, {g.leaves[0].name, g.leaves[0].t, ""}}}
+			c.late = append(c.late, vlHField{"prefix", st, g.sec})
+		}
+		labels = append(labels, "absent-then-set")
+	default: // several Set calls: the ancestor map replaced, then a leaf below it set again (or the other way round)
+		c.eager = append(c.eager, g.ancestorField(inSub && r.Bool(), ""), g.byValue(target))
+		p, m := parentMap(false)
+		again := changed
+		again.v = g.vary(changed)
+		if r.Bool() {
+			c.ops = append(c.ops, vlSetOp{g.casing(p), m}, vlSetOp{g.casing(target.path), again.v})
+			changed = again
+		} else {
+			c.ops = append(c.ops, vlSetOp{g.casing(target.path), again.v}, vlSetOp{g.casing(p), m})
+		}
+		c.late = append(c.late, g.ancestorField(inSub && r.Bool(), target.path), g.byValue(changed), vlHField{"prop", target.t, target.path})
+		labels = append(labels, "several-sets")
+	}
+	// bystanders: a key no Set comes near
+	if r.P(1, 2) {
+		c.late = append(c.late, vlHField{"value", vlTS, "${kz}"})
+	}
+	c.labels = labels
+	return c
+}
+
+// vlGenHSLazy: the same histories on one App with a LazyInit holder (mode z<n>), over the fixed vocabulary of vlLazyTable.
+func vlGenHSLazy(r *hx.Rng) *vlHSCase {
+	n := r.Intn(len(vlLazyTable))
+	word := func() string { return vlGenPlainWord(r) + ".internal" }
+	num := func() int64 { return int64(1 + r.Intn(9000)) }
+	sb := map[string]*vlCval{"kd": vlCStr(word()), "ke": vlCInt(num())}
+	sa := map[string]*vlCval{"ka": vlCStr(word()), "kb": vlCInt(num()), "kc": vlCBool(r.Bool()), "sb": vlCMap(sb)}
+	c := &vlHSCase{mode: "z" + strconv.Itoa(n), late: vlLazyTable[n].fields,
+		cfg: vlCMap(map[string]*vlCval{"kz": vlCStr("zz"), "sa": vlCMap(sa)})}
+	secA := &vlFty{k: 'T', fields: []vlFfield{{"ka", vlTS, ""}, {"kb", vlTI, ""}}}
+	eagerPool := []vlHField{{"prefix", secA, "sa"}, {"prefix", vlTMA, "sa"}, {"prefix", vlTSecB, "sa.sb"}, {"prefix", vlTMA, "SA.SB"}, {"value", vlTS, "${sa.ka}"},
+		{"prop", vlTI, "sa.kb"}, {"value", vlTI, "${sa.sb.ke}"}, {"prop", vlTS, "sa.sb.kd"}, {"value", vlTI, "${sa.kx:30}"}, {"prop", vlTS, "SA.KA"}, {"value", vlTB, "${sa.kc}"}}
+	for _, i := range r.Perm(len(eagerPool))[:1+r.Intn(3)] {
+		c.eager = append(c.eager, eagerPool[i])
+	}
+	if r.P(2, 3) { // most of the time the start looks an ancestor up
+		c.eager = append(c.eager, eagerPool[r.Intn(4)])
+	}
+	opPool := []func() vlSetOp{
+		func() vlSetOp { return vlSetOp{"sa.ka", vlCStr(word())} },
+		func() vlSetOp { return vlSetOp{"SA.KA", vlCStr(word())} },
+		func() vlSetOp { return vlSetOp{"sa.kb", vlCInt(num())} },
+		func() vlSetOp { return vlSetOp{"sa.sb.kd", vlCStr(word())} },
+		func() vlSetOp { return vlSetOp{"sa.sb.ke", vlCInt(num())} },
+		func() vlSetOp { return vlSetOp{"Sa.Sb.Ke", vlCInt(num())} },
+		func() vlSetOp { return vlSetOp{"sa.kc", vlCBool(r.Bool())} },
+		func() vlSetOp { return vlSetOp{"sa.kx", vlCInt(60 + num())} },
+		func() vlSetOp {
+			return vlSetOp{"sa.sb", vlCMap(map[string]*vlCval{"kd": vlCStr(word()), "ke": vlCInt(num())})}
+		},
+		func() vlSetOp { return vlSetOp{"sa.sb", vlCMap(map[string]*vlCval{"Kd": vlCStr(word())})} },
+		func() vlSetOp {
+			return vlSetOp{"sa", vlCMap(map[string]*vlCval{"ka": vlCStr(word()), "kb": vlCInt(num()), "kc": vlCBool(r.Bool()),
+				"sb": vlCMap(map[string]*vlCval{"kd": vlCStr(word()), "ke": vlCInt(num())})})}
+		},
+		func() vlSetOp { return vlSetOp{"sa", vlCMap(map[string]*vlCval{"ka": vlCStr(word()), "kx": vlCInt(60 + num())})} },
+	}
+	for i, k := 0, 1+r.Intn(3); i < k; i++ {
+		c.ops = append(c.ops, opPool[r.Intn(len(opPool))]())
+	}
+	c.labels = []string{"lazy"}
+	return c
 }
